@@ -119,15 +119,58 @@ def run(repo: Repo, tier: str) -> Report:
         kws = {kw.arg: ast.unparse(kw.value) for kw in call.keywords}
         lookups[label or f"?{st.lineno}"] = dict(var=var, k=int(k), node=node, stmt=st, call=call, kws=kws,
                                                  index=ast.unparse(call.func.value))
+    # ---- lookups made through a helper (a nested closure, a module-level function or a method that returns the position, possibly through
+    # another such helper): `X = helper(.., label, ..) + k`. The sentinel obligation moves into the helper that calls get_indexer.
+    if len(lookups) < 2:
+        from ..rules import position_helpers
+        possrc, pfuncs, callee_name, _ = position_helpers(repo, fn)
+        for node in cfg.stmt_nodes():
+            st = node.stmt
+            if node.kind != "stmt" or not isinstance(st, ast.Assign) or len(st.targets) != 1:
+                continue
+            hcalls = [c for c in ast.walk(st.value) if isinstance(c, ast.Call) and callee_name(c) in possrc]
+            if len(hcalls) != 1 or isinstance(st.value, (ast.BoolOp, ast.IfExp)):
+                continue
+            call = hcalls[0]
+            tgt = st.targets[0]
+            if isinstance(tgt, (ast.Tuple, ast.List)) and len(tgt.elts) == 1 and isinstance(tgt.elts[0], ast.Name):
+                var = tgt.elts[0].id
+            elif isinstance(tgt, ast.Name):
+                var = tgt.id
+            else:
+                continue
+            labs = [a.id for a in list(call.args) + [k_.value for k_ in call.keywords] if isinstance(a, ast.Name) and a.id in (p_begin, p_end)]
+            if len(labs) != 1:
+                continue
+            src = ast.unparse(st.value).replace(ast.unparse(call), "GETIX")
+            try:
+                k = (N.norm(parse_expr(src)) - Rat.atom("GETIX")).const_value()
+            except Unsupported:
+                k = None
+            if k is None:
+                raise AnalysisError(f"unsupported construct: position is not helper(...) + const in {FILE}:{st.lineno}")
+            info = _helper_lookup(pfuncs, callee_name, possrc, call, {p_method}, fn, depth=0)
+            lookups[labs[0]] = dict(var=var, k=int(k), node=node, stmt=st, call=call, kws={"method": p_method if info["method_ok"] else None},
+                                    index=info["index"] or "?", helper=info)
     rep.floor("get_indexer lookups", len(lookups), 2)
     for lab in (p_begin, p_end):
         if lab not in lookups:
             raise AnalysisError(f"missing anchor: get_indexer([{lab}]) lookup in _iteragg")
 
     # ---- R-APISENTINEL
+    offsets_pending = []
     for lab, want_k in ((p_begin, 1), (p_end, 0)):
         lk = lookups[lab]
         var, k = lk["var"], lk["k"]
+        if lk.get("helper") is not None:
+            h_ = lk["helper"]
+            ob("R-APISENTINEL", f"lookup of {lab} is checked against -1 before use", h_["sentinel_ok"] and h_["surfaces_valueerror"],
+               f"through {' -> '.join(h_['chain'])}: {h_['detail']}", lk["stmt"], kind="must-pass-through inside the helper that calls get_indexer")
+            ob("R-FORMULA", f"{lab}_ix offset", k == want_k,
+               f"position of {lab} is helper(...) + {k}; the window arithmetic needs + {want_k}", lk["stmt"])
+            ob("R-FORMULA", f"{lab} lookup passes the caller's method", lk["kws"].get("method") == p_method,
+               f"method reaches get_indexer: {h_['method_ok']}", f"get_indexer([{lab}], method=...)")
+            continue
         guards = set()
         for g in cfg.nodes:
             if g.kind != "if" or not isinstance(g.stmt.test, ast.Compare):
@@ -164,12 +207,42 @@ def run(repo: Repo, tier: str) -> Report:
                       f"for the missing-label sentinel ({var} == {k - 1}) that raises ValueError; an off-axis {lab} is then used as a position")
         ob("R-APISENTINEL", f"lookup of {lab} is checked against -1 before use", ok, detail, lk["stmt"],
            kind=f"must-pass-through over {len(uses)} use(s), {len(guards)} guard(s)")
-        ob("R-FORMULA", f"{lab}_ix offset", k == want_k,
-           f"position of {lab} is get_indexer + {k}; the window arithmetic needs + {want_k}", lk["stmt"])
+        offsets_pending.append((lab, want_k, lk))
         ob("R-FORMULA", f"{lab} lookup passes the caller's method", lk["kws"].get("method") == p_method,
            f"keywords = {lk['kws']}", f"get_indexer([{lab}], method=...)")
 
-    begin_var, end_var = lookups[p_begin]["var"], lookups[p_end]["var"]
+    # the looked-up position may be carried on in a second variable (`pos = lookup; ...; begin_ix = pos + 1`, e.g. after a lookup helper was
+    # inlined): the window arithmetic is then judged on that variable with the combined offset
+    for lab in (p_begin, p_end):
+        lk = lookups[lab]
+        if lk.get("helper") is not None:
+            continue
+        v0 = lk["var"]
+        derived = []
+        other_defs = {n.id for n in cfg.stmt_nodes() if n.kind == "stmt" and n is not lk["node"] and isinstance(n.stmt, ast.Assign)
+                      and any(isinstance(x, ast.Name) and x.id == v0 and isinstance(x.ctx, ast.Store) for t_ in n.stmt.targets for x in ast.walk(t_))}
+
+        def reached(n):   # some path from this lookup to n does not pass another definition of the variable
+            return n.id in cfg.reachable_from(lk["node"]) and (not other_defs or n.id in other_defs or not cfg.must_pass(lk["node"], other_defs, target=n))
+        for n in cfg.stmt_nodes():
+            st = n.stmt
+            if n.kind == "stmt" and isinstance(st, ast.Assign) and len(st.targets) == 1 and isinstance(st.targets[0], ast.Name) \
+                    and st.targets[0].id != v0 and v0 in names_read(st.value) and reached(n):
+                try:
+                    c_ = (N.norm(st.value) - Rat.atom(v0)).const_value()
+                except Unsupported:
+                    c_ = None
+                if c_ is not None:
+                    derived.append((st.targets[0].id, int(c_), n))
+        other_uses = [n for n in cfg.stmt_nodes() if n.kind != "if" and n is not lk["node"] and v0 in names_read(_head(n)) and reached(n)
+                      and n.id not in other_defs and not any(n is d_[2] for d_ in derived)]
+        if len(derived) == 1 and not other_uses:
+            lk["var2"], lk["k2"], lk["node2"] = derived[0][0], lk["k"] + derived[0][1], derived[0][2]
+    for lab, want_k, lk in offsets_pending:
+        kk_ = lk.get("k2", lk["k"])
+        ob("R-FORMULA", f"{lab}_ix offset", kk_ == want_k,
+           f"position of {lab} is get_indexer + {kk_}; the window arithmetic needs + {want_k}", lk["stmt"])
+    begin_var, end_var = lookups[p_begin].get("var2", lookups[p_begin]["var"]), lookups[p_end].get("var2", lookups[p_end]["var"])
 
     # ---- defaults
     def default_of(var, lk):
@@ -177,7 +250,7 @@ def run(repo: Repo, tier: str) -> Report:
         for n in cfg.stmt_nodes():
             st = n.stmt
             if n.kind == "stmt" and isinstance(st, ast.Assign) and isinstance(st.targets[0], ast.Name) \
-                    and st.targets[0].id == var and n is not lk["node"]:
+                    and st.targets[0].id == var and n is not lk["node"] and n is not lk.get("node2"):
                 outs.append(st)
         return outs
     db = default_of(begin_var, lookups[p_begin])
@@ -366,6 +439,100 @@ def run(repo: Repo, tier: str) -> Report:
     r_stateless(rep, repo, [('IterativeAggregation', '_iteragg'), ('IterativeAggregation', 'sum'), ('IterativeAggregation', 'mean'), ('IterativeAggregation', 'full')])
     rep.floor("C19 obligations", len(rep.obls), 20)
     return rep
+
+
+def _returns_valueerror(fdef: ast.FunctionDef) -> bool:
+    rets = [r for r in ast.walk(fdef) if isinstance(r, ast.Return)]
+    return bool(rets) and all(isinstance(r.value, ast.Call) and ast.unparse(r.value.func) == "ValueError" for r in rets)
+
+
+def _helper_lookup(pfuncs, callee_name, possrc, call: ast.Call, method_names: set, outer: ast.FunctionDef, depth: int) -> dict:
+    """Follow `call` into the helper it names until the function that calls get_indexer; report whether the caller's method reaches the lookup,
+    whether the -1 sentinel is tested (with a raising arm) on every path to a return, and whether the failure surfaces as ValueError."""
+    name = callee_name(call)
+    h = pfuncs[name]
+    params = [a.arg for a in h.args.args]
+    if params and params[0] in ("self", "cls") and isinstance(call.func, ast.Attribute):
+        params = params[1:]
+    bound = dict(zip(params, call.args))
+    bound.update({k_.arg: k_.value for k_ in call.keywords if k_.arg})
+    nested = any(n is h for n in ast.walk(outer))
+    inner_methods = {pn for pn, av in bound.items() if isinstance(av, ast.Name) and av.id in method_names} | (set(method_names) if nested else set())
+    out = dict(chain=[name], index=None, method_ok=False, sentinel_ok=False, surfaces_valueerror=False, detail="")
+    # does a handler around the position-producing call convert KeyError into ValueError?
+    converts = False
+    for tr in ast.walk(h):
+        if isinstance(tr, ast.Try):
+            for hd in tr.handlers:
+                if hd.type is not None and "KeyError" in ast.unparse(hd.type) and raises_valueerror_like(hd.body, pfuncs):
+                    converts = True
+    gi = [c for c in ast.walk(h) if isinstance(c, ast.Call) and isinstance(c.func, ast.Attribute) and c.func.attr == "get_indexer"]
+    if gi:
+        c = gi[0]
+        kws = {k_.arg: ast.unparse(k_.value) for k_ in c.keywords}
+        out["method_ok"] = kws.get("method") in inner_methods
+        iv = c.func.value
+        out["index"] = ast.unparse(bound[iv.id]) if isinstance(iv, ast.Name) and iv.id in bound else ast.unparse(iv)
+        hc = CFG(h)
+        NN_ = Normaliser()
+        lookup_nodes = [n for n in hc.stmt_nodes() if n.kind == "stmt" and isinstance(n.stmt, ast.Assign) and any(x is c for x in ast.walk(n.stmt))]
+        ok, detail, raised = False, "get_indexer result is not bound to a name", set()
+        if lookup_nodes:
+            ln = lookup_nodes[0]
+            tg = ln.stmt.targets[0]
+            pv = tg.elts[0].id if isinstance(tg, (ast.Tuple, ast.List)) and len(tg.elts) == 1 and isinstance(tg.elts[0], ast.Name) else None
+            if pv is not None:
+                src = ast.unparse(ln.stmt.value).replace(ast.unparse(c), "GETIX")
+                try:
+                    kk = (NN_.norm(parse_expr(src)) - Rat.atom("GETIX")).const_value()
+                except Unsupported:
+                    kk = None
+                guards = set()
+                for g in hc.nodes:
+                    if g.kind != "if" or not isinstance(g.stmt.test, ast.Compare) or pv not in names_read(g.stmt.test) or kk is None:
+                        continue
+                    try:
+                        tag, d = int_cmp(g.stmt.test, NN_)
+                    except Unsupported:
+                        continue
+                    X = Rat.atom(pv)
+                    if ((tag == "eq0" and (d.equals(X - Rat.const(kk - 1)) or (-d).equals(X - Rat.const(kk - 1))))
+                            or (tag == "le0" and d.equals(X - Rat.const(kk - 1)))) and g.stmt.body and isinstance(g.stmt.body[-1], ast.Raise):
+                        guards.add(g.id)
+                        e_ = g.stmt.body[-1].exc
+                        raised.add(ast.unparse(e_.func) if isinstance(e_, ast.Call) else ast.unparse(e_) if e_ is not None else "?")
+                uses = [n for n in hc.stmt_nodes() if n.id not in guards and n is not ln and pv in names_read(_head(n)) and n.id in hc.reachable_from(ln)]
+                bad = [u for u in uses if not hc.must_pass(ln, guards, target=u)]
+                ok = bool(uses) and not bad and kk is not None
+                detail = (f"`{pv}` is tested against the sentinel by {len(guards)} raising guard(s) before its {len(uses)} use(s) in {name}" if ok else
+                          f"`{pv}` reaches `{norm_stmt(bad[0].stmt) if bad else 'no use'}` in {name} without a raising test for the missing-label sentinel")
+        out["sentinel_ok"], out["detail"] = ok, detail
+        out["raised"] = raised
+        out["surfaces_valueerror"] = bool(raised) and all(r_ == "ValueError" or (r_ in pfuncs and _returns_valueerror(pfuncs[r_])) or (r_ == "KeyError" and converts)
+                                                          for r_ in raised)
+        return out
+    if depth >= 2:
+        out["detail"] = "helper chain too deep"
+        return out
+    inner = [c for c in ast.walk(h) if isinstance(c, ast.Call) and callee_name(c) in possrc and callee_name(c) != name]
+    if not inner:
+        out["detail"] = f"{name} neither calls get_indexer nor a position helper"
+        return out
+    sub = _helper_lookup(pfuncs, callee_name, possrc, inner[0], inner_methods, h if not nested else outer, depth + 1)
+    sub["chain"] = [name] + sub["chain"]
+    if not sub["surfaces_valueerror"] and sub.get("raised") and all(r_ in ("KeyError", "ValueError") for r_ in sub["raised"]) and converts:
+        sub["surfaces_valueerror"] = True
+    if isinstance(sub.get("index"), str) and sub["index"] in bound:
+        sub["index"] = ast.unparse(bound[sub["index"]])
+    return sub
+
+
+def raises_valueerror_like(stmts, pfuncs) -> bool:
+    if not stmts or not isinstance(stmts[-1], ast.Raise) or stmts[-1].exc is None:
+        return False
+    e = stmts[-1].exc
+    nm = ast.unparse(e.func) if isinstance(e, ast.Call) else ast.unparse(e)
+    return nm == "ValueError" or (nm in pfuncs and _returns_valueerror(pfuncs[nm]))
 
 
 def _head(n):
